@@ -36,7 +36,9 @@ Level 3 (combine_simulation_results / combine_simulation_parameters): one or
     never updated) at the first / middle / last variation of either operand or
     everywhere, for every type, CHOICETYPE with 2, 3 and 5 choices.  Operands
     are also built on parameter objects that were read and then EDITED through
-    the public writers (item assignment, add, remove + add).
+    the public writers (item assignment, add, remove + add).  Every operand
+    lists the values of its unpacked parameters ascending, descending or
+    shuffled, including pairs with IDENTICAL grids in the same order.
 """
 import contextlib
 import copy
@@ -68,7 +70,9 @@ RULE = ("result level: every observation sequence of length <= L over the per-ty
         "per-variation histories at the first / middle / last variation of either operand or everywhere x every "
         "type x CHOICE with 2/3/5 choices, each combined result also compared with one object fed the same "
         "observations; operands built on parameter objects that were read and then edited through the public "
-        "writers (item assignment / add / remove+add). Oracles (public API only: get_result, num_updates, mean, var, "
+        "writers (item assignment / add / remove+add); per-operand presentation order of the values (ascending / "
+        "descending / shuffled, all 8 non-trivial pairs) incl. identical grids, numeric and string valued, list and "
+        "array. Oracles (public API only: get_result, num_updates, mean, var, "
         "accumulated lists, to_dict for value / total): sufficient-statistics reference model, one object fed the whole "
         "sequence, operand snapshots after every merge. A case is non-trivial when it executes at least one "
         "merge/append/combine; distinct = distinct (level, types, accumulate, observations, term)")
@@ -1022,6 +1026,16 @@ def empty_positions(spec, which, n):
     return set() if idx is None else {idx}
 
 
+def present_in_order(ranks, how):
+    """ascending / descending / shuffled (rotated by one; a transposition for two values)"""
+    r = sorted(ranks)
+    if how == "desc":
+        return r[::-1]
+    if how == "shuf":
+        return r[1:] + r[:1]
+    return r
+
+
 def build_operand(t, acc, which, hv, universe, rxs, rys, order, empty=None, k=None, via=None):
     """returns (SimulationResults, x ranks in stored order, y ranks or None).
     via = None: the parameters object is created with its final values.
@@ -1036,7 +1050,11 @@ def build_operand(t, acc, which, hv, universe, rxs, rys, order, empty=None, k=No
     U = UNIVERSES[universe]
     rxs = list(rxs)
     rys = None if rys is None else list(rys)
-    if order == "desc" and which == 1:
+    if isinstance(order, (list, tuple)):
+        # per-operand presentation order of the values of EVERY unpacked parameter
+        rxs = present_in_order(rxs, order[which])
+        rys = None if rys is None else present_in_order(rys, order[which])
+    elif order == "desc" and which == 1:
         rxs = rxs[::-1]
     pd = {"f": 7, "x": represent(universe, which, "x", [U["X"][r] for r in rxs])}
     if rys is not None:
@@ -1170,6 +1188,9 @@ def run_union_case(c, case):
                                      via if 1 in via_ops else None)
         if via:
             c.outcome("union_edited_parameters", (via, tuple(via_ops)))
+        if isinstance(case["order"], (list, tuple)):
+            same = sorted(x1) == sorted(x2) and (y1 is None or sorted(y1) == sorted(y2))
+            c.outcome("union_presentation_orders", (tuple(case["order"]), "identical_grids" if same else "other"))
         ord1 = [(rx, ry) for rx in ox1 for ry in (oy1 if oy1 is not None else [None])]
         ord2 = [(rx, ry) for rx in ox2 for ry in (oy2 if oy2 is not None else [None])]
         emp1 = empty_positions(empty, 0, len(ord1))
@@ -1179,7 +1200,7 @@ def run_union_case(c, case):
         c.count("eval_union_cases")
         c.transitions += 1
         c.traces_validated += 1
-        c.nontriv(("u", universe, t, acc, hv, repr((x1, x2, y1, y2)), case["order"], str(empty), k,
+        c.nontriv(("u", universe, t, acc, hv, repr((x1, x2, y1, y2)), repr(case["order"]), str(empty), k,
                    case.get("via"), repr(case.get("via_operands"))))
         c.outcome("union_universes", universe)
         if public_state(s1) != snap1 or public_state(s2) != snap2:
@@ -1304,6 +1325,22 @@ def union_cases(types_ok, tier):
                             yield {"level": "union", "universe": "int", "type": t, "acc": False, "hv": 0,
                                    "order": "asc", "x1": x1, "x2": x2, "y1": y1, "y2": y2, "empty": spec,
                                    "choice_num": kk, "lookups": False}
+    # presentation ORDER of the values: each operand lists the values of every unpacked parameter ascending,
+    # descending or shuffled - including operand pairs with IDENTICAL grids in the same non-ascending order.
+    # Numeric and string valued, array and list presentation (see `represent`).
+    ord_pairs = [(a, b) for a in ("asc", "desc", "shuf") for b in ("asc", "desc", "shuf") if (a, b) != ("asc", "asc")]
+    yconf = [(None, None), ([0, 1], [0, 1])] + ([([0], [0, 1]), ([0, 1], [1]), ([1], [1])] if tier == "thorough" else [])
+    for universe in ("int", "str", "tiny_float", "numpy_vs_python"):
+        for t in ([x for x in ("SUM", "MISC") if x in types_ok] if tier != "thorough" else list(types_ok)):
+            for o in ord_pairs:
+                for x1 in xs:
+                    for x2 in xs:
+                        for y1, y2 in yconf:
+                            if t == "MISC" and y1 is not None and tier != "thorough":
+                                continue
+                            yield {"level": "union", "universe": universe, "type": t, "acc": False, "hv": 0,
+                                   "order": list(o), "x1": x1, "x2": x2, "y1": y1, "y2": y2,
+                                   "lookups": sorted(x1) == sorted(x2)}
     # operands whose parameters object was EDITED through a public writer after having been read
     for via in ("setitem", "add", "remove_add"):
         for ops in ([0], [1], [0, 1]):
@@ -1445,6 +1482,7 @@ def main(chk: Check):
     chk.require_outcomes("union_presence_patterns", 20)
     chk.require_outcomes("union_universes", len(UNIVERSES))
     chk.require_outcomes("union_edited_parameters", 9)
+    chk.require_outcomes("union_presentation_orders", 16)
     if choice_ok:
         chk.require_outcomes("union_empty_history_outcomes", 40)
     chk.require_outcomes("lookup_outcomes", 4)
